@@ -377,6 +377,30 @@ def run_order(tier, seed, log):
             f.write("endburst\nend\n")
     viol = []
     n_lines = 0
+    # the model's prediction: the commands one at a time; per operation the acting connection's direct replies, then what
+    # was queued for it (exactly what Irc/Deliver.lean's `drun … true` gives when nobody else is sending)
+    from . import canon
+    mpath = runner.WORK + "/order-model-%d.ops" % seed
+    with open(mpath, "w") as f:
+        for name, cfg, setup, burst in sc:
+            f.write("seq %s\n" % name)
+            for l in cfg:
+                f.write(l + "\n")
+            f.write("begin\n")
+            for o in setup + burst[1]:
+                f.write(o + "\n")
+            f.write("end\n")
+    rm = runner.sh([runner.MODEL, "run", mpath], timeout=600)
+    if rm.returncode != 0:
+        raise runner.BuildError("model run failed: " + rm.stderr[-800:])
+    expected = {}
+    for (name, cfg, setup, burst), ms in zip(sc, canon.parse_transcript(rm.stdout)):
+        exp = {1: [], 2: []}
+        for op in ms.ops[len(setup) + 1:]:
+            for c in (1, 2):
+                exp[c] += [canon.canon_line(l) for l in op.outs.get(c, [])]
+        expected[name] = exp
+    n_exact = 0
     for workers in ([1, 4] if tier == "quick" else [1, 2, 4, 8]):
         ri = runner.sh([runner.HARNESS, "conc", path], timeout=3000, env={"VERIF_WORKERS": str(workers)})
         if ri.returncode != 0:
@@ -387,6 +411,16 @@ def run_order(tier, seed, log):
             if im is None:
                 continue
             for c in (1, 2):
+                got = [canon.canon_line(l) for l in im["outs"].get(c, [])]
+                n_exact += 1
+                if got != expected[name][c] and not viol:
+                    k = next((i for i, (x, y) in enumerate(zip(got, expected[name][c])) if x != y), min(len(got), len(expected[name][c])))
+                    viol.append(("conc:pipeline-transcript", {
+                        "what": "the lines a connection receives for pipelined commands differ (content or ORDER) from the model's "
+                                "sequential prediction (socket of connection %d)" % c,
+                        "cfg": cfg, "setup": runner.render_ops(setup), "burst": {"1": runner.render_ops(burst[1])},
+                        "first_difference_at_line": k, "impl": got[max(0, k - 2):k + 3], "model": expected[name][c][max(0, k - 2):k + 3],
+                        "workers": workers, "scenario": name}))
                 seq = []
                 for l in im["outs"].get(c, []):
                     m = re.search(r"tok(\d\d)x", l)
@@ -403,7 +437,7 @@ def run_order(tier, seed, log):
                                 "out_of_order": [l1[:120], l2[:120]],
                                 "observed": [l[:100] for _, l in seq][:40], "workers": workers, "scenario": name}))
                         break
-    cov = {"order_scenarios": len(sc), "order_lines_checked": n_lines,
+    cov = {"order_scenarios": len(sc), "order_lines_checked": n_lines, "order_transcripts_equal_to_model_in_order": n_exact,
            "order_rule": "real run_server; one connection pipelines 6-16 commands carrying sequence tokens (TOPIC, PING, PRIVMSG to itself / a peer "
                          "/ the channel, MODE, WHOIS, JOIN, KICK, INVITE, NOTICE); on its own socket and on the peer's socket the tokens must "
                          "appear in command order"}
